@@ -236,6 +236,8 @@ struct FlatOp {
     method: M,
     handler: usize,
     secured: bool,
+    /// length of the mount prefix of the application that registers the operation
+    own_prefix_len: usize,
 }
 fn flatten(app: &OApp, prefix: &[Seg], secured: bool, out: &mut Vec<FlatOp>) {
     let secured = secured || app.auth % 3 != 0;
@@ -245,7 +247,7 @@ fn flatten(app: &OApp, prefix: &[Seg], secured: bool, out: &mut Vec<FlatOp>) {
                 let mut full = prefix.to_vec();
                 full.extend(segs.iter().cloned());
                 for op in ops {
-                    out.push(FlatOp { segs: full.clone(), method: op.method, handler: op.handler as usize % CATALOGUE.len(), secured: secured || op.local_auth % 3 != 0 });
+                    out.push(FlatOp { segs: full.clone(), method: op.method, handler: op.handler as usize % CATALOGUE.len(), secured: secured || op.local_auth % 3 != 0, own_prefix_len: prefix.len() });
                 }
             }
             OItem::Mount { prefix: p, app: sub } => {
@@ -253,6 +255,27 @@ fn flatten(app: &OApp, prefix: &[Seg], secured: bool, out: &mut Vec<FlatOp>) {
                 full.extend(p.iter().cloned());
                 flatten(sub, &full, secured, out);
             }
+        }
+    }
+}
+
+/// segment and parameter names as the generator writes them (the structural reducer may cut them to "")
+fn names_ok(app: &OApp) -> bool {
+    let ok = |v: &[Seg]| v.iter().all(|s| matches!(s, Seg::S(n) | Seg::P(n) if !n.is_empty() && n.bytes().all(|b| b.is_ascii_alphanumeric())));
+    app.items.iter().all(|it| match it {
+        OItem::Route { segs, .. } => ok(segs),
+        OItem::Mount { prefix, app } => ok(prefix) && names_ok(app),
+    })
+}
+
+/// full prefixes of all mounts, at any depth
+fn mount_prefixes(app: &OApp, prefix: &[Seg], out: &mut Vec<Vec<Seg>>) {
+    for it in &app.items {
+        if let OItem::Mount { prefix: p, app: sub } = it {
+            let mut full = prefix.to_vec();
+            full.extend(p.iter().cloned());
+            out.push(full.clone());
+            mount_prefixes(sub, &full, out);
         }
     }
 }
@@ -276,6 +299,7 @@ fn normalize(app: &mut OApp, prefix: &[Seg], taken: &mut Vec<(Vec<Seg>, M)>, dep
     let mut kept = Vec::new();
     let mut local: Vec<Vec<Seg>> = Vec::new();
     let mut mounts: Vec<Vec<Seg>> = Vec::new();
+    let mut static_mounts: Vec<Seg> = Vec::new();
     for it in std::mem::take(&mut app.items) {
         match it {
             OItem::Route { mut segs, mut ops } => {
@@ -327,9 +351,16 @@ fn normalize(app: &mut OApp, prefix: &[Seg], taken: &mut Vec<(Vec<Seg>, M)>, dep
                         }
                     }
                 }
-                // a first segment of its own: mounts do not share nodes with local routes (C01's recorded finding)
-                if mounts.iter().any(|q| q[0].unify_eq(&p[0])) || local.iter().any(|l| l.first().map_or(false, |f| f.unify_eq(&p[0]))) {
+                // a first segment of its own: mounts do not share nodes with local routes (C01's recorded finding is
+                // about parameter nodes at a mount boundary) — unless everything involved is static: then one and the
+                // same route may get its methods from a direct registration and from a mounted application
+                let all_static = |v: &[Seg]| v.iter().all(|s| matches!(s, Seg::S(_)));
+                let static_mount = all_static(&p) && !has_params(&sub);
+                if mounts.iter().any(|q| q[0].unify_eq(&p[0])) || local.iter().any(|l| l.first().map_or(false, |f| f.unify_eq(&p[0])) && !(static_mount && all_static(l))) {
                     continue;
+                }
+                if static_mount {
+                    static_mounts.push(p[0].clone())
                 }
                 let mut full = prefix.to_vec();
                 full.extend(p.iter().cloned());
@@ -341,10 +372,17 @@ fn normalize(app: &mut OApp, prefix: &[Seg], taken: &mut Vec<(Vec<Seg>, M)>, dep
     }
     // local routes must not start with a mount's first segment either
     kept.retain(|it| match it {
-        OItem::Route { segs, .. } => !mounts.iter().any(|q| segs.first().map_or(false, |f| f.unify_eq(&q[0]))),
+        OItem::Route { segs, .. } => !mounts.iter().any(|q| segs.first().map_or(false, |f| f.unify_eq(&q[0])) && !(static_mounts.contains(&q[0]) && segs.iter().all(|s| matches!(s, Seg::S(_))))),
         _ => true,
     });
     app.items = kept;
+}
+
+fn has_params(app: &OApp) -> bool {
+    app.items.iter().any(|it| match it {
+        OItem::Route { segs, .. } => segs.iter().any(|s| matches!(s, Seg::P(_))),
+        OItem::Mount { prefix, app } => prefix.iter().any(|s| matches!(s, Seg::P(_))) || has_params(app),
+    })
 }
 
 fn oapp_strategy(depth: u32) -> BoxedStrategy<OApp> {
@@ -360,9 +398,13 @@ fn oapp_strategy(depth: u32) -> BoxedStrategy<OApp> {
         (tag, auth, vec(route, 0..=4)).prop_map(|(tag, auth, items)| OApp { tag, auth, items }).boxed()
     } else {
         let mount = (vec(seg, 1..=2), oapp_strategy(depth + 1)).prop_map(|(prefix, app)| OItem::Mount { prefix, app });
-        (tag, auth, vec(route, 0..=4), vec(mount, 0..=2))
-            .prop_map(|(tag, auth, mut items, mounts)| {
-                items.extend(mounts);
+        (tag, auth, vec(route, 0..=4), vec(mount, 0..=2), prop::bool::weighted(0.3))
+            .prop_map(|(tag, auth, mut items, mounts, mounts_first)| {
+                if mounts_first {
+                    items.splice(0..0, mounts);
+                } else {
+                    items.extend(mounts);
+                }
                 OApp { tag, auth, items }
             })
             .boxed()
@@ -393,7 +435,7 @@ fn collect_refs(v: &serde_json::Value, out: &mut Vec<String>) {
 impl Property for C15 {
     type Case = Case;
     const ID: &'static str = "C15";
-    const RULE: &'static str = "generated: applications assembled (hook H1) from a compiled catalogue of 14 handler signatures (0–2 path params of string/integer type, Query/JSON/URLEncoded/Multipart extractors over derived schemas, text/JSON/typed-status/Result returns), nested mounts with param prefixes, openapi::Tag, JWT/BasicAuth fangs on any application or locally, handlers with fewer params than the route captures. Oracle: the bytes of the generated document parse as JSON; every embedded schema validates against the JSON Schema 2020-12 meta-schema (Python jsonschema sidecar); every $ref resolves; path/method pairs = flattened route table with :p → {p}; every {p} is a declared required path parameter and the operation's path parameters are the route's params in order; request body media type, query parameters and response statuses as the signature says; security present iff an auth fang is in the operation's chain; one request per documented operation is not 404. Non-trivial = an application with a mount, a path param and at least one extractor; distinct by case.";
+    const RULE: &'static str = "generated: applications assembled (hook H1) from a compiled catalogue of 14 handler signatures (0–2 path params of string/integer type, Query/JSON/URLEncoded/Multipart extractors over derived schemas, text/JSON/typed-status/Result returns), nested mounts with param prefixes, openapi::Tag, JWT/BasicAuth fangs on any application or locally, handlers with fewer params than the route captures. Oracle: the bytes of the generated document parse as JSON; every embedded schema validates against the JSON Schema 2020-12 meta-schema (Python jsonschema sidecar); every $ref resolves; path/method pairs = flattened route table with :p → {p}; every {p} is a declared required path parameter and the operation's path parameters are the route's params in order; request body media type, query parameters and response statuses as the signature says; security present iff an auth fang is in the operation's chain, and iff the running application answers 401 to the operation's request sent without credentials; one request per documented operation is not 404. Non-trivial = an application with a mount, a path param and at least one extractor; distinct by case.";
     const ASSUMPTIONS: &'static [&'static str] = &[
         "mounts get a first segment of their own (nodes shared between a mount and outside routes are C01's recorded finding)",
         "operationId uniqueness and tags are not checked (the statement does not list them)",
@@ -420,7 +462,7 @@ impl Property for C15 {
     fn in_domain(&self, case: &Case) -> bool {
         let mut a = case.app.clone();
         normalize(&mut a, &[], &mut Vec::new(), 0);
-        a == case.app
+        a == case.app && names_ok(&case.app)
     }
 
     fn check(&self, case: &Case, obs: &mut Obs) {
@@ -430,6 +472,13 @@ impl Property for C15 {
         }
         let mut flat = Vec::new();
         flatten(&case.app, &[], false, &mut flat);
+        // Operations that share a node or a path prefix with a mount of *another* application (possible for static
+        // routes only, see `normalize`): whether the mounted application's fangs guard them is decided by the
+        // router's node sharing and compression (C04 records a finding there), not by the configuration tree. For
+        // them the model makes no claim; the comparison of the document with the running server below still applies.
+        let mut mounts: Vec<Vec<Seg>> = Vec::new();
+        mount_prefixes(&case.app, &[], &mut mounts);
+        let shared = |op: &FlatOp| mounts.iter().any(|q| q.iter().zip(&op.segs).take_while(|(a, b)| a.unify_eq(b)).count() > op.own_prefix_len);
         let has_mount = case.app.items.iter().any(|i| matches!(i, OItem::Mount { .. }));
         obs.nontrivial = has_mount && flat.iter().any(|o| n_params(&o.segs) > 0) && flat.iter().any(|o| CATALOGUE[o.handler].inbound != Inb::None);
         let built = panic::catch(std::panic::AssertUnwindSafe(|| {
@@ -581,7 +630,12 @@ impl Property for C15 {
             }
             // security
             let has_sec = op.get("security").and_then(|s| s.as_array()).map_or(false, |a| !a.is_empty());
-            if has_sec != fo.secured {
+            let in_shared_territory = shared(fo);
+            if in_shared_territory {
+                obs.ambiguous += 1;
+                obs.label("operation-shares-nodes-with-a-foreign-mount");
+            }
+            if !in_shared_territory && has_sec != fo.secured {
                 obs.fail(if fo.secured { "security-missing" } else { "security-unexpected" }, format!("{ctx}: security requirement {}present, an authentication fang {} the operation", if has_sec { "" } else { "not " }, if fo.secured { "guards" } else { "does not guard" }));
             }
             if has_sec {
@@ -613,6 +667,15 @@ impl Property for C15 {
                 Ok(o) => {
                     if o.status() == 404 {
                         obs.fail("documented-operation-not-reachable", format!("{ctx}: {} {target} is 404", k.1));
+                    }
+                    // the document against the running application: the request carries no credentials, and only the
+                    // authentication fangs answer 401 (no catalogue handler does)
+                    let enforced = o.status() == 401;
+                    if enforced != has_sec {
+                        obs.fail(
+                            if has_sec { "security-documented-but-not-enforced" } else { "security-enforced-but-not-documented" },
+                            format!("{ctx}: {} {target} without credentials is answered {}, the document {} a security requirement", k.1, o.status(), if has_sec { "states" } else { "does not state" }),
+                        );
                     }
                 }
                 Err(e) => obs.fail("malformed-response", format!("{ctx}: {e}")),
